@@ -307,3 +307,8 @@ for tier in ('quick', 'thorough'):
     PROPS['C04']['mir'][tier][0]['scenarios'] += ['zip.owned_ref', 'zip.ref_owned']
 PROPS['C04']['functions'] += ['GenericSequence::inverted_zip (trait default, & receiver)', 'GenericArray::inverted_zip2 (both needs_drop branches)']
 PROPS['C04']['outside'] = ['Box receivers on the unwind path: their map/zip/fold go through alloc::vec::IntoIter and Vec (std code, trusted to drop its remaining elements)', 'N > 6 for the unrolled pipelines']
+
+for tier in ('quick', 'thorough'):
+    PROPS['C04']['mir'][tier][0]['scenarios'] += ['iter.fold', 'iter.rfold']
+PROPS['C06']['mir']['quick'].append(mrun(['iter.fold', 'iter.rfold'], nmax=3))
+PROPS['C04']['functions'] += ['GenericArrayIter::{fold,rfold}']
